@@ -26,6 +26,7 @@ import (
 	"sort"
 	"strings"
 	"sync"
+	"sync/atomic"
 	"testing"
 	"time"
 
@@ -542,6 +543,11 @@ func genHostProbes(rng *rand.Rand, p *pool, cur, prev *model, n int) (out []host
 			}
 			out = append(out, hostProbe{prepend(rng, z, rng.IntN(4)), "around-zone"})
 		default:
+			if rng.IntN(150) == 0 {
+				// The root name: no labels, nothing to look up.
+				out = append(out, hostProbe{"", "root"})
+				continue
+			}
 			out = append(out, hostProbe{prepend(rng, p.pick(rng), rng.IntN(2)), "random"})
 		}
 	}
@@ -778,7 +784,7 @@ func (mo *monitor) compareHashSets(where string, m *model, got []string, want ma
 func (mo *monitor) directWorld() {
 	r := mo.r
 	nStor := 2
-	versions := r.N(6, 14)
+	versions := r.N(8, 24)
 	suffixes := []string{filter.GeneralTXTSuffix, filter.AdultBlockingTXTSuffix}
 	storages := make([]*hashprefix.Storage, nStor)
 	cur := make([]*model, nStor)
@@ -787,7 +793,7 @@ func (mo *monitor) directWorld() {
 	for v := 0; v < versions; v++ {
 		for s := 0; s < nStor; s++ {
 			rng := r.Rand(fmt.Sprintf("direct/list/%d", s), v)
-			size := 200 + rng.IntN(r.N(2500, 20000))
+			size := 200 + rng.IntN(r.N(4000, 30000))
 			var text string
 			switch {
 			case v == 2 && s == 0:
@@ -838,13 +844,13 @@ func (mo *monitor) directWorld() {
 		for s := 0; s < nStor; s++ {
 			// Exact-name membership.
 			rng := r.Rand(fmt.Sprintf("direct/names/%d", s), v)
-			probes := genHostProbes(rng, mo.pool, cur[s], prev[s], r.N(500, 3000))
+			probes := genHostProbes(rng, mo.pool, cur[s], prev[s], r.N(2500, 25000))
 			for i, pr := range probes {
 				mo.checkStorageMatches(storages[s], cur[s], prev[s], pr, map[string]any{"storage": s, "version": v, "probe": i})
 			}
 			// Prefix look-ups through Storage.Hashes and Matcher.MatchByPrefix.
 			rng = r.Rand(fmt.Sprintf("direct/txt/%d", s), v)
-			nq := r.N(250, 1500)
+			nq := r.N(1200, 12000)
 			for i := 0; i < nq; i++ {
 				q := genTXTQuery(rng, mo.pool, suffixes[s], cur[s])
 				mo.checkMatcher(ctx, "matcher", matcher, storages[s], mods, q, map[string]any{"storage": s, "version": v, "query": i})
@@ -1349,11 +1355,11 @@ func (mo *monitor) filterWorld() {
 	msgs := agdtest.NewConstructor(mo.t)
 	ctx := context.Background()
 
-	versions := r.N(5, 10)
+	versions := r.N(6, 20)
 	for v := 0; v < versions; v++ {
 		for wi, fw := range worlds {
 			rng := r.Rand(fmt.Sprintf("filter/list/%d", wi), v)
-			size := 150 + rng.IntN(r.N(2000, 15000))
+			size := 150 + rng.IntN(r.N(3000, 20000))
 			var pn []string
 			if fw.cur != nil {
 				pn = fw.cur.names
@@ -1377,7 +1383,7 @@ func (mo *monitor) filterWorld() {
 		// (1) Filter.FilterRequest directly.
 		for wi, fw := range worlds {
 			rng := r.Rand(fmt.Sprintf("filter/hosts/%d", wi), v)
-			probes := genHostProbes(rng, mo.pool, fw.cur, fw.prev, r.N(300, 2000))
+			probes := genHostProbes(rng, mo.pool, fw.cur, fw.prev, r.N(1500, 12000))
 			// A tenth of the probes is asked again later in the round (result
 			// cache, possibly after eviction).
 			for i := 0; i < len(probes); i += 10 {
@@ -1394,7 +1400,7 @@ func (mo *monitor) filterWorld() {
 		for wi, fw := range worlds[:2] {
 			suffix := suffixOf[fw.id]
 			rng := r.Rand(fmt.Sprintf("filter/txt/%d", wi), v)
-			nq := r.N(200, 1200)
+			nq := r.N(800, 8000)
 			for i := 0; i < nq; i++ {
 				q := genTXTQuery(rng, mo.pool, suffix, fw.cur)
 				where := map[string]any{"filter": string(fw.id), "version": v, "query": i}
@@ -1405,7 +1411,7 @@ func (mo *monitor) filterWorld() {
 
 		// (3) Host questions through the handler stack.
 		rng := r.Rand("filter/stackhosts", v)
-		nh := r.N(120, 800)
+		nh := r.N(500, 6000)
 		for i := 0; i < nh; i++ {
 			fw := worlds[rng.IntN(len(worlds))]
 			pr := genHostProbes(rng, mo.pool, fw.cur, fw.prev, 1)[0]
@@ -1458,6 +1464,35 @@ func nearMiss(cur, prev *model, host string) string {
 	}
 	sort.Strings(kinds)
 	return kinds[0]
+}
+
+// classifyFalsePositive names the class of a wrong match from the rule the
+// implementation reported for it.
+func classifyFalsePositive(cur, prev *model, host, rule string, qt uint16) string {
+	if !filterableQType(qt) {
+		return "nonfilterable-qtype"
+	}
+	_, pubSufLabels, icann, _ := candidates(host)
+	if rule != host && !strings.HasSuffix(host, "."+rule) {
+		return "rule-not-a-parent"
+	}
+	k := strings.Count(rule, ".") + 1
+	switch {
+	case k > 4:
+		return "beyond-4-labels"
+	case icann && k <= pubSufLabels:
+		return "public-suffix"
+	case cur.has(rule):
+		return "listed-eligible-rule" // cannot happen unless the model itself is inconsistent
+	case prev.has(rule):
+		return "stale-after-reset"
+	case cur.sharesPrefix(rule):
+		return "prefix-collision"
+	}
+	if _, ok := cur.comment[rule]; ok {
+		return "commented"
+	}
+	return "unlisted"
 }
 
 func hostClass(comp, host string, qt uint16, e hostExpectation, near string) string {
@@ -1545,6 +1580,7 @@ func (mo *monitor) checkFilter(ctx context.Context, fw *fworld, msgs *dnsmsg.Con
 	}()
 	r.Eval(hostClass("filter", pr.Host, qt, e, near), e.Matched || near != "")
 	r.Bucket("filter_requests", 1)
+	r.Bucket("filter_probe_kind:"+pr.Kind, 1)
 	if filterableQType(qt) {
 		r.Bucket("filter_requests_filterable_qtype", 1)
 	} else {
@@ -1578,12 +1614,8 @@ func (mo *monitor) checkFilter(ctx context.Context, fw *fworld, msgs *dnsmsg.Con
 		r.Violation(fmt.Sprintf("filter:false-negative:via-%d-labels", strings.Count(e.Via[0], ".")+1),
 			"a host whose own name or parent (within four labels, above the public suffix) is listed is not matched", w)
 	case !e.Matched && got:
-		key := "filter:false-positive"
-		if near != "" {
-			key += ":" + near
-		} else {
-			key += ":unlisted"
-		}
+		_, rule := res.MatchedRule()
+		key := "filter:false-positive:" + classifyFalsePositive(fw.cur, fw.prev, pr.Host, string(rule), qt)
 		r.Violation(key, "a host is matched although neither it nor an eligible parent is listed (or the question type is not A/AAAA/HTTPS)", w)
 	case got:
 		id, rule := res.MatchedRule()
@@ -1748,6 +1780,7 @@ func (mo *monitor) checkStackHost(st *stack, rng *rand.Rand, worlds []*fworld, p
 		resp, up, obs, err = st.query(qname, qt)
 	}()
 	r.Bucket("stack_host_queries", 1)
+	r.Bucket("stack_probe_kind:"+pr.Kind, 1)
 	near := ""
 	if !e.Matched && filterableQType(qt) {
 		for _, fw := range worlds {
@@ -1789,10 +1822,10 @@ func (mo *monitor) checkStackHost(st *stack, rng *rand.Rand, worlds []*fworld, p
 		return
 	case !e.Matched && got:
 		key := "stack:host-false-positive"
-		if !filterableQType(qt) {
-			key += ":nonfilterable-qtype"
-		} else if near != "" {
-			key += ":" + near
+		for _, fw := range worlds {
+			if string(fw.id) == obs.List {
+				key += ":" + classifyFalsePositive(fw.cur, fw.prev, pr.Host, obs.Rule, qt)
+			}
 		}
 		r.Violation(key, "through the handler stack, a host without a listed eligible name is matched", w)
 		return
@@ -1838,6 +1871,144 @@ func (mo *monitor) checkStackHost(st *stack, rng *rand.Rand, worlds []*fworld, p
 }
 
 // ---------------------------------------------------------------------------
+// World C: look-ups concurrent with resets.  A reader must see the old or the
+// new list: a name in both is always matched, a name in neither never, and the
+// hashes behind a prefix are those of the old or those of the new list.
+// ---------------------------------------------------------------------------
+
+func (mo *monitor) concurrentWorld() {
+	r := mo.r
+	rounds := r.N(4, 40)
+	const readers = 6
+	for round := 0; round < rounds; round++ {
+		rng := r.Rand("concurrent", round)
+		size := 3000 + rng.IntN(r.N(6000, 30000))
+		textA := genList(rng, mo.pool, size, nil)
+		ma := parseModel(textA)
+		shared := append([]string(nil), ma.names...)
+		rng.Shuffle(len(shared), func(i, j int) { shared[i], shared[j] = shared[j], shared[i] })
+		shared = shared[:len(shared)/2]
+		textB := genList(rng, mo.pool, size/2, nil) + "\n" + strings.Join(shared, "\n") + "\n"
+		mb := parseModel(textB)
+
+		type nameProbe struct {
+			name string
+			want int // 1 always, 0 never, -1 either
+		}
+		type prefProbe struct {
+			p            hashprefix.Prefix
+			wantA, wantB string
+		}
+		var nps []nameProbe
+		var pps []prefProbe
+		joined := func(m *model, p [2]byte) string {
+			var l []string
+			for _, h := range m.byPrefix[p] {
+				l = append(l, hex.EncodeToString(h[:]))
+			}
+			sort.Strings(l)
+			return strings.Join(l, ",")
+		}
+		for i := 0; i < 4000; i++ {
+			var nm string
+			switch rng.IntN(4) {
+			case 0:
+				nm = shared[rng.IntN(len(shared))]
+			case 1:
+				nm = ma.names[rng.IntN(len(ma.names))]
+			case 2:
+				nm = mb.names[rng.IntN(len(mb.names))]
+			default:
+				nm = mo.pool.pick(rng)
+				if ps := mo.pool.partners(shared[rng.IntN(len(shared))]); len(ps) > 0 && rng.IntN(2) == 0 {
+					nm = ps[rng.IntN(len(ps))]
+				}
+			}
+			inA, inB := ma.has(nm), mb.has(nm)
+			w := -1
+			if inA && inB {
+				w = 1
+			} else if !inA && !inB {
+				w = 0
+			}
+			nps = append(nps, nameProbe{nm, w})
+			h := sha256.Sum256([]byte(nm))
+			p := [2]byte{h[0], h[1]}
+			pps = append(pps, prefProbe{hashprefix.Prefix(p), joined(ma, p), joined(mb, p)})
+		}
+
+		st, err := hashprefix.NewStorage(textA)
+		if err != nil {
+			r.Inconclusive("concurrent world: NewStorage failed: " + err.Error())
+			return
+		}
+		var inReset, done atomic.Bool
+		var overlapped, probesDone atomic.Int64
+		var wg sync.WaitGroup
+		start := make(chan struct{})
+		for g := 0; g < readers; g++ {
+			wg.Add(1)
+			go func(g int) {
+				defer wg.Done()
+				<-start
+				var n, ov int64
+				for i := g; ; i = (i + readers) % len(nps) {
+					if done.Load() && n >= int64(len(nps)) {
+						break
+					}
+					during := inReset.Load()
+					np := nps[i]
+					got := st.Matches(np.name)
+					if np.want == 1 && !got {
+						r.Violation("concurrent:common-name-missed", "a name listed both before and after a reset was not matched while the reset was running",
+							map[string]any{"round": round, "name": np.name})
+					} else if np.want == 0 && got {
+						r.Violation("concurrent:unlisted-name-matched", "a name listed neither before nor after a reset was matched while the reset was running",
+							map[string]any{"round": round, "name": np.name})
+					}
+					pp := pps[i]
+					hs := st.Hashes([]hashprefix.Prefix{pp.p})
+					hs = sortedKeys(setOf(hs))
+					if j := strings.Join(hs, ","); j != pp.wantA && j != pp.wantB {
+						r.Violation("concurrent:hashes-neither-old-nor-new", "the hashes returned for a prefix during a reset are neither those of the old nor those of the new list",
+							map[string]any{"round": round, "prefix": hex.EncodeToString(pp.p[:]), "got": hs, "old_or_new_1": pp.wantA, "old_or_new_2": pp.wantB})
+					}
+					n++
+					if during && inReset.Load() {
+						ov++
+					}
+				}
+				probesDone.Add(n)
+				overlapped.Add(ov)
+			}(g)
+		}
+		close(start)
+		resets := r.N(30, 80)
+		for k := 0; k < resets; k++ {
+			text := textB
+			if k%2 == 1 {
+				text = textA
+			}
+			inReset.Store(true)
+			_, err = st.Reset(text)
+			inReset.Store(false)
+			if err != nil {
+				r.Inconclusive("concurrent world: Reset failed: " + err.Error())
+				break
+			}
+			r.Bucket("concurrent_resets", 1)
+		}
+		done.Store(true)
+		wg.Wait()
+		r.Bucket("concurrent_lookups", 2*probesDone.Load())
+		r.Bucket("concurrent_lookups_during_a_reset", 2*overlapped.Load())
+		r.Eval("concurrent|common-name", true)
+		r.Eval("concurrent|unlisted-name", true)
+		r.Eval("concurrent|prefix-hashes", true)
+	}
+}
+
+// ---------------------------------------------------------------------------
 
 func TestCheck(t *testing.T) {
 	r := vkit.Start(t, "C11", "exploration")
@@ -1867,8 +2038,12 @@ func TestCheck(t *testing.T) {
 	}
 	mo.directWorld()
 	mo.filterWorld()
+	mo.concurrentWorld()
 
 	r.Require("storage_resets", 10)
+	r.Require("concurrent_resets", 100)
+	r.Require("concurrent_lookups", 30000)
+	r.Require("concurrent_lookups_during_a_reset", 200)
 	r.Require("filter_refreshes", 12)
 	r.Require("storage_matches_expected_true", 500)
 	r.Require("storage_near_miss:prefix-collision", 100)
@@ -1887,7 +2062,7 @@ func TestCheck(t *testing.T) {
 	r.Require("filter_near_miss:stale-after-reset", 100)
 	r.Require("filter_near_miss:nonfilterable-qtype", 1000)
 	r.Require("stack_txt_answers_with_hashes", 300)
-	r.Require("stack_txt_refused", 150)
+	r.Require("stack_txt_queries_malformed", 150)
 	r.Require("stack_txt_queries_not-hash-query", 30)
 	r.Require("stack_host_matched", 100)
 	r.Require("stack_host_passed", 300)
